@@ -171,6 +171,29 @@ func (fm *FileModel) CompareRejects(w *World, m *skel.Method, field string, exp 
 		a, h := fm.atomOfBound(r.Bound)
 		acts = append(acts, &act{r: r, atom: a, hole: h})
 	}
+	// independent of the oracle: a check inside range loops must measure the value indexed by exactly
+	// those loop variables, each loop ranging over the value one level up
+	for _, a := range acts {
+		r := a.r
+		if field == "" || len(r.Loops) == 0 {
+			continue
+		}
+		prefix := "plain." + field
+		okSubj := true
+		for _, l := range r.Loops {
+			if l.Over != prefix {
+				okSubj = false
+			}
+			prefix += "[" + l.Var + "]"
+		}
+		if r.Subject != prefix {
+			okSubj = false
+		}
+		if !okSubj {
+			issues = append(issues, Issue{Rule: "A-REJ", Construct: fmt.Sprintf("nested check does not measure the element selected by its %d enclosing loop(s)", len(r.Loops)),
+				Msg: fmt.Sprintf("%s: `%s` sits inside loops %v but measures %s (expected %s): a different array than the one being iterated is checked (or indexed out of range)", what, r.Cond, r.Loops, r.Subject, prefix)})
+		}
+	}
 	for _, e := range exp {
 		var hit *act
 		for _, a := range acts {
